@@ -9,9 +9,11 @@ package litmus
 import (
 	"context"
 	"fmt"
+	"runtime"
 	"sort"
 	"strings"
 	"sync"
+	"sync/atomic"
 	"time"
 )
 
@@ -379,5 +381,109 @@ var Programs = []Program{
 		t0 := time.Now()
 		<-ctx.Done()
 		return fmt.Sprint(time.Since(t0), ctx.Err())
+	}},
+	{"nil interface values through channels", false, func() string {
+		c := make(chan any, 2)
+		u := make(chan error)
+		c <- nil
+		c <- 1
+		go func() { u <- nil }()
+		a, ok := <-c
+		b := <-c
+		var e error
+		select {
+		case e = <-u:
+		}
+		return fmt.Sprint(a, ok, b, e == nil)
+	}},
+	{"atomic counter without a lock", false, func() string {
+		var n atomic.Int32
+		var plain int32
+		done := make(chan bool)
+		for i := 0; i < 2; i++ {
+			go func() {
+				n.Add(1)
+				v := atomic.LoadInt32(&plain)
+				atomic.StoreInt32(&plain, v+1) // not atomic as a whole: an increment can be lost
+				done <- true
+			}()
+		}
+		<-done
+		<-done
+		return fmt.Sprint(n.Load(), atomic.LoadInt32(&plain))
+	}},
+	{"compare and swap elects one", false, func() string {
+		var flag atomic.Bool
+		res := make(chan string, 2)
+		for _, name := range []string{"a", "b"} {
+			go func() {
+				if flag.CompareAndSwap(false, true) {
+					res <- name
+				} else {
+					res <- "-"
+				}
+			}()
+		}
+		x, y := <-res, <-res
+		return x + y
+	}},
+	{"condition variable hand-off", false, func() string {
+		var mu sync.Mutex
+		cond := sync.NewCond(&mu)
+		ready := false
+		out := make(chan string)
+		go func() {
+			mu.Lock()
+			for !ready {
+				cond.Wait()
+			}
+			mu.Unlock()
+			out <- "woken"
+		}()
+		mu.Lock()
+		ready = true
+		cond.Broadcast()
+		mu.Unlock()
+		return <-out
+	}},
+	{"context.AfterFunc runs after cancel, stop prevents it", false, func() string {
+		ctx, cancel := context.WithCancel(context.Background())
+		ran := make(chan string, 2)
+		context.AfterFunc(ctx, func() { ran <- "f" })
+		stop := context.AfterFunc(ctx, func() { ran <- "g" })
+		stopped := stop()
+		cancel()
+		r := <-ran
+		select {
+		case x := <-ran:
+			r += x
+		default:
+		}
+		return fmt.Sprint(r, stopped, stop())
+	}},
+	{"child context, value and cause", false, func() string {
+		type key struct{}
+		parent, cancel := context.WithCancelCause(context.WithValue(context.Background(), key{}, "v"))
+		child, stop := context.WithCancel(parent)
+		defer stop()
+		cancel(fmt.Errorf("why"))
+		<-child.Done()
+		return fmt.Sprint(child.Err(), context.Cause(child), child.Value(key{}), parent.Err())
+	}},
+	{"once value", false, func() string {
+		calls := 0
+		f := sync.OnceValue(func() int { calls++; return 42 })
+		res := make(chan int, 2)
+		go func() { res <- f() }()
+		go func() { res <- f() }()
+		return fmt.Sprint(<-res, <-res, calls)
+	}},
+	{"goexit-free gosched spin", false, func() string {
+		var flag atomic.Bool
+		go func() { flag.Store(true) }()
+		for !flag.Load() {
+			runtime.Gosched()
+		}
+		return "seen"
 	}},
 }
